@@ -76,6 +76,9 @@ func LoadOverlay(repo string, cfg Config, overlay map[string][]byte) (*Program, 
 			strings.HasPrefix(e, "GOTOOLCHAIN=") || strings.HasPrefix(e, "CGO_ENABLED=") {
 			continue
 		}
+		if overlay != nil && strings.HasPrefix(e, "GOCACHE=") {
+			continue
+		}
 		env = append(env, e)
 	}
 	env = append(env, "GOWORK=off", "GOFLAGS=-mod=mod", "GOPROXY=off", "GOSUMDB=off",
@@ -88,6 +91,9 @@ func LoadOverlay(repo string, cfg Config, overlay map[string][]byte) (*Program, 
 	}
 	if overlay != nil {
 		pc.Overlay = overlay
+		if d := viewCacheDir(); d != "" {
+			pc.Env = append(pc.Env, "GOCACHE="+d)
+		}
 	}
 	if len(cfg.Tags) > 0 {
 		pc.BuildFlags = []string{"-tags=" + strings.Join(cfg.Tags, ",")}
